@@ -48,7 +48,7 @@ def run(pid, tier, seed, replay):
     for l in lines:
         if l.get("k") == "stat":
             dist.update(l["dist"])
-        if l.get("k") == "violation":
+        if l.get("k") == "violation" and l.get("prop", "C04") == "C04":
             ctx.add_violation(l["sig"], l["what"], [l["case"]])
     jobs = []
     shard = 40
